@@ -182,6 +182,9 @@ class Exec:
                 raise OutOfSubset('use of undefined value %s in %s' % (op['name'], self.fnkey))
             return self.env[op['name']]
         if k == 'global':
+            if op['pkg'] not in self.w.prog.packages:
+                # variable of a package outside gotree (os.Stderr, ...): an opaque cell of its declared type
+                self.V.ext_globals[(op['pkg'], op['name'])] = self.w.prog.types[op['type']]['elem']
             ty = self.V.global_type(op['pkg'], op['name'])
             return LValue('global', (op['pkg'], op['name']), ty)
         if k == 'func':
@@ -321,6 +324,14 @@ class Exec:
                 if op == 'Jump':
                     continue
                 if op == 'Return':
+                    if self.top and self.contract is not None and self.contract.get('returns'):
+                        env_r = self.spec_env(self.resolve_names(b, upto_idx=idx))
+                        evR = SpecEval(V, self.pkg, env_r, self.heap, old=self.top_entry_heap())
+                        for (lab, ast, txt) in self.contract['returns']:
+                            try:
+                                self.oblige('return', evR.boolean(ast), ins_.get('pos', ''), label=lab or '0', text=txt)
+                            except SpecError as e:
+                                raise OutOfSubset('return clause in %s: %s' % (self.fnkey, e))
                     res = [self.term(o) if not isinstance(self.val(o), FuncVal) else z3.IntVal(0) for o in ins_['results']]
                     self.returns.append((self.reach, res, self.heap.copy()))
                     terminated = True
@@ -428,6 +439,10 @@ class Exec:
                 elif x['op'] == 'Phi' and x.get('comment'):
                     if x['comment'] not in found:
                         found[x['comment']] = ('phi', {'k': 'reg', 'name': x['name'], 'type': x['type']}, False)
+                elif x['op'] == 'Alloc' and x.get('comment') and x['comment'] not in ('complit', 'new', 'makeslice', 'varargs', 'slicelit', 'maplit') and not x['comment'].startswith('('):
+                    # a local variable that lives in memory: its name denotes the address
+                    if x['comment'] not in found:
+                        found[x['comment']] = ('dbg', {'k': 'reg', 'name': x['name'], 'type': x['type']}, True)
         for p in self.fn['params'] + self.fn['freevars']:
             if p['name'] not in found:
                 found[p['name']] = ('param', {'k': 'param', 'name': p['name'], 'type': p['type']}, False)
